@@ -489,6 +489,8 @@ def _method_call(fr: Frame, e, f: ast.Attribute, args, kwargs, env, guard, stmt)
         return ev.fresh_sym(base_name + ".pop")
     base = fr.expr(f.value, env)
     if m in ("all", "any") and not args and isinstance(base, G):
+        if base.key in ev.vec_compare:
+            return ev.vec_compare[base.key][0 if m == "all" else 1]
         return base            # (mask).all() / .any(): as np.all(mask) / np.any(mask)
     if m in ("astype", "copy", "flatten", "ravel", "tolist", "squeeze", "view"):
         return base
@@ -669,14 +671,14 @@ def _known(fr: Frame, name: str, e, args, kwargs, env, guard, stmt):
     if name in ("np.all", "py.all"):
         v = a(0)
         if isinstance(v, G):
-            return v
+            return ev.vec_compare[v.key][0] if v.key in ev.vec_compare else v
         if isinstance(v, PW):
             return fr.truth(v)
         return g_atom(("all", vkey(v)))
     if name in ("np.any", "py.any"):
         v = a(0)
         if isinstance(v, G):
-            return v
+            return ev.vec_compare[v.key][1] if v.key in ev.vec_compare else v     # any() of an element-wise vector comparison is the disjunction
         return g_atom(("any", vkey(v)))
     if name in ("np.argmax", "np.argmin"):
         return lift(lambda v: anf.opaque(name[3:], R(v), array=False), a(0))
